@@ -276,3 +276,68 @@ def value_from_json(j):
 
 def dumps(obj):
     return json.dumps(obj, indent=1, sort_keys=True)
+
+
+# ---------------------------------------------------------------------------------------------- isar
+def _xml(s):
+    return str(s).replace('&', '&amp;').replace('<', '&lt;').replace('>', '&gt;').replace('"', '&quot;')
+
+
+def render_isar_member(m, counter_name=None):
+    """One <member> element (struct context).  Dynamic / limited arrays use the isVariableSize form with the
+    same counter name the prophy parser would synthesise (num_of_<name>)."""
+    attrs = 'name="%s" type="%s"' % (m.name, 'byte' if m.is_bytes else m.type)
+    if m.kind == PLAIN:
+        return '<member %s/>' % attrs
+    if m.kind == OPT:
+        return '<member %s optional="true"/>' % attrs
+    if m.kind == FIXARR:
+        return '<member %s><dimension size="%s"/></member>' % (attrs, _xml(m.size_expr))
+    if m.kind == EXTARR:
+        return '<member %s><dimension variableSizeFieldName="@%s"/></member>' % (attrs, m.sizer)
+    cname = counter_name or ('num_of_' + m.name)
+    if m.kind == DYNARR:
+        return ('<member %s><dimension isVariableSize="true" variableSizeFieldName="%s"/></member>' % (attrs, cname))
+    if m.kind == LIMARR:
+        return ('<member %s><dimension size="%s" isVariableSize="true" variableSizeFieldName="%s"/></member>'
+                % (attrs, _xml(m.size_expr), cname))
+    raise ValueError("isar cannot express member kind %s" % m.kind)
+
+
+def render_isar_decl(d, expr_render=None):
+    rx = expr_render or (lambda e: e)
+    if isinstance(d, Const):
+        return '<constant name="%s" value="%s"/>' % (d.name, _xml(rx(d.expr)))
+    if isinstance(d, Enum):
+        return '<enum name="%s">%s</enum>' % (d.name, ''.join(
+            '<enum-member name="%s" value="%s"/>' % (n, _xml(rx(e))) for n, v, e in d.members))
+    if isinstance(d, Typedef):
+        if d.target in NUMERIC:
+            return '<typedef name="%s" primitiveType="%s"/>' % (d.name, ISAR_PRIMITIVE[d.target])
+        return '<typedef name="%s" type="%s"/>' % (d.name, d.target)
+    if isinstance(d, Struct):
+        return '<struct name="%s">%s</struct>' % (d.name, ''.join(render_isar_member(m) for m in d.members))
+    if isinstance(d, Union):
+        return '<union name="%s">%s</union>' % (d.name, ''.join(
+            '<member name="%s" type="%s" discriminatorValue="%s"/>' % (a.name, a.type, _xml(rx(a.disc_expr)))
+            for a in d.arms))
+    raise ValueError(d)
+
+
+def to_isar(decls, includes=()):
+    out = ['<?xml version="1.0" encoding="utf-8"?>', '<definitions>']
+    for inc in includes:
+        out.append('<xi:include xmlns:xi="http://www.w3.org/2001/XInclude" href="%s"/>' % inc)
+    for d in decls:
+        out.append(render_isar_decl(d))
+    out.append('</definitions>')
+    return '\n'.join(out) + '\n'
+
+
+def isar_expressible(schema):
+    """greedy members cannot be said in isar XML (they need a patch)."""
+    for d in schema.decls:
+        if isinstance(d, Struct):
+            if any(m.kind == GREEDY for m in d.members):
+                return False
+    return True
